@@ -189,6 +189,9 @@ impl Worker {
     /// A case over the limit first gets its halt flag raised (if registered) and, 1.5 s (CPU, or
     /// 15 s wall) later, the process reports `H` and exits with status 3.
     pub fn set_case_limit_ms(&mut self, ms: u64) {
+        // processor time is what is counted, but on a crowded machine the same work costs more of it
+        // (shared caches, hyper-threads): the limit grows with the load, up to two and a half times
+        let ms = (ms as f64 * (1.0 + (load_factor() - 1.0) * 0.5)) as u64;
         let first = self.watch.limit_ms.swap(ms, Ordering::SeqCst) == 0;
         if first && ms > 0 {
             let slot = self.watch.clone();
